@@ -7,7 +7,8 @@ import Ypv.Props.C06
 #print axioms Ypv.C06.diff_refl
 #print axioms Ypv.C06.keyed_of_no_key_sync
 #print axioms Ypv.C06.diff_truthful
-#print axioms Ypv.C06.diff_clean_iff_dataEq_strict_partial
+#print axioms Ypv.C06.diff_clean_iff_dataEq_strict
+#print axioms Ypv.C06.diff_clean_of_eqv
 #print axioms Ypv.C06.diff_clean_iff_dataEq_partial
 #print axioms Ypv.C06.diff_complete_strict
 #print axioms Ypv.C06.diff_complete_partial
